@@ -15,7 +15,10 @@ PLACE = {'HA': 'vec2<u32>', 'HB': 'vec3<u32>', 'HC': 'vec4<u32>'}
 NAME0 = SymStr([('sym', 'Host_member0_name')])      # the NAME of the first member of Host is an abstract string
 
 
-def render(spell=None, decls='', name0='m0'):
+HOST_SPACE = {'Uniform': '<uniform>', 'Storage': '<storage, read_write>'}
+
+
+def render(spell=None, decls='', name0='m0', space='Storage'):
     s = dict(PLACE)
     s.update(spell or {})
     return decls + f'''struct Inner {{ a: f32, b: vec3<f32> }}
@@ -28,7 +31,7 @@ struct Host {{
   arr_inner: array<Inner, 3>,
   tail: {s["HC"]},
 }}
-@group(0) @binding(0) var<storage, read_write> host: Host;
+@group(0) @binding(0) var{HOST_SPACE[space]} host: Host;
 struct VIn {{ @location(2) p: vec4<f32>, @builtin(vertex_index) vi: u32, @location(0) q: vec2<i32>, @builtin(instance_index) ii: u32, @location(1) r: f32 }}
 @vertex fn vs(in: VIn) -> @builtin(position) vec4<f32> {{ return in.p; }}
 '''
@@ -59,6 +62,7 @@ def run(ctx):
                                           (hh['HB'], HB, lambda m: HB.wgsl(m))], allow_dynamic=True)
     holes = {'HA': HA, 'HB': HB, 'HC': HC}
     fmt = z3.BitVec('matrix_vector_types', 64)
+    host_space = z3.BitVec('host_variable_space', 64)
     ctx.bounds = {'structs': 'Host (5 members: 2 symbolic, nested struct, array of struct, symbolic trailing member) + vertex struct with interleaved builtins + nested Inner',
                   'member type': 'scalar/atomic/vector/matrix with kind, width, size, cols, rows symbolic; arrays of length any non-zero u32 over {f32, Inner, another hole}; nesting <= 3 (array of array of array)',
                   'representation': 'Rust / Glam / Nalgebra (symbolic)', 'member names': 'the name of Host\'s first member is an abstract string (any predicate the code asks about it is answered both ways)', 'type names': 'every symbolic member type is written directly or through a WGSL alias (symbolic)'}
@@ -90,10 +94,16 @@ def run(ctx):
         module = c.module(S.dump(src))
         types_ = c.get(module, 'types').fields[0].items
         c.set(c.get(types_[named['Host']], 'inner').fields[0].items[0], 'name', some(NAME0))
+        # the address space of the variable that makes Host host-shareable is symbolic (uniform / storage)
+        AS_ = {v['name']: v['disc'] for v in S.schema['enums']['AddressSpace']}
+        from mirsym.schema import mkflags
+        c.set(c.get(module, 'global_variables').fields[0].items[0], 'space', c.sym_enum('AddressSpace', host_space, {'Storage': [mkflags('StorageAccess', 3)]}))
         for k, h in holes.items():
             set_inner(ctx, module, hh[k], h.inner(ctx))
             c.set(types_[hh[k]], 'name', h.name_value())        # written directly or through `alias X = ...;` (symbolic)
-        assume = [z3.ULT(fmt, 3)]
+        assume = [z3.ULT(fmt, 3), z3.Or(host_space == AS_['Uniform'], host_space == AS_['Storage']),
+                  z3.Implies(z3.And(HC.tdisc == HC.TI['Array'], HC.adyn), host_space == AS_['Storage'])]      # runtime arrays: storage only
+        ctx.host_space_name = lambda m_: 'Uniform' if model_value(m_, host_space) == AS_['Uniform'] else 'Storage'
         for k, h in holes.items():
             assume += h.assumption()
             if plan == ('deep',):
@@ -230,7 +240,7 @@ def replay(ctx, holes, fmt, m, opts_fixed, base_match_for, failed):
         return False, {'note': f'no WGSL spelling for {spell}'}
     o = dict(opts_fixed, matrix_vector_types=['Rust', 'Glam', 'Nalgebra'][model_value(m, fmt)])
     name0 = concrete_name(m, NAME0, 'm0')
-    src = render(spell, ''.join(decls), name0)
+    src = render(spell, ''.join(decls), name0, ctx.host_space_name(m))
     kind, toks, _ = ctx.gen_tokens(src, o)
     det = {'wgsl': src, 'options': o}
     if kind != 'ok':
